@@ -17,12 +17,7 @@ pub(crate) struct Felt(u32);
 
 impl Felt {
     pub const fn new(value: i16) -> Self {
-        let gtz_bool = value >= 0;
-        let gtz_int = gtz_bool as i16;
-        let gtz_sign = gtz_int - ((!gtz_bool) as i16);
-        let reduced = gtz_sign * ((gtz_sign * value) % (Q as i16));
-        let canonical_representative = (reduced + (Q as i16) * (1 - gtz_int)) as u32;
-        Felt(canonical_representative)
+        Felt((value as i32).rem_euclid(Q as i32) as u32)
     }
 
     pub const fn value(&self) -> i16 {
